@@ -9,12 +9,14 @@ cd "$WT" || exit 2
 git diff -- . ':(exclude)_seed' > /tmp/seed_$ID.diff
 [ -s /tmp/seed_$ID.diff ] || { echo "empty patch"; exit 2; }
 echo "== demo with change"; timeout 120 /venv/bin/python _seed/demo.py > /tmp/seed_$ID.with.log 2>&1; W=$?
+if grep -q "Address already in use" /tmp/seed_$ID.with.log; then sleep 3; timeout 120 /venv/bin/python _seed/demo.py > /tmp/seed_$ID.with.log 2>&1; W=$?; fi
 echo "exit $W"; tail -3 /tmp/seed_$ID.with.log
 echo "== tests with change"; T=$(/venv/bin/python -m pytest -q -p no:cacheprovider 2>&1 | tail -1); echo "$T"
-git stash -q
+git apply -R /tmp/seed_$ID.diff || { echo "cannot revert"; exit 2; }
 echo "== demo without change"; timeout 120 /venv/bin/python _seed/demo.py > /tmp/seed_$ID.without.log 2>&1; WO=$?
+if [ $WO -ne 0 ] && grep -q "Address already in use" /tmp/seed_$ID.without.log; then sleep 3; timeout 120 /venv/bin/python _seed/demo.py > /tmp/seed_$ID.without.log 2>&1; WO=$?; fi
 echo "exit $WO"; tail -2 /tmp/seed_$ID.without.log
-git stash pop -q
+git apply /tmp/seed_$ID.diff
 cd /repo || exit 2
 git status --short | grep -v '^??' && { echo "/repo dirty"; exit 2; }
 git apply /tmp/seed_$ID.diff || { echo "patch does not apply to /repo"; exit 2; }
